@@ -537,6 +537,11 @@ func runExact(c *hlib.Ctx, g gen, n int) {
 			impl := hlib.Guard(func() string {
 				b, v := s.BarycentricSDF(q)
 				pt, _ := s.PointSDF(q)
+				if tri2Tie(p, q) {
+					// two different boundary points are at exactly the same distance: either is right
+					c.Stat("x.tri2/tie", 1)
+					return "tie"
+				}
 				for k := 0; k < 3; k++ {
 					if b[k] == 1 {
 						c.Stat("x.tri2/vertex", 1)
@@ -592,6 +597,48 @@ func runExact(c *hlib.Ctx, g gen, n int) {
 			c.Emit(fmt.Sprintf("c06 x.mesh %d %d%s %s", idx[face], len(faces), sb.String(), r3(q)), "1")
 		}
 	}
+}
+
+// tri2Tie reports (exactly, over the rationals) whether the minimum of the squared distances from q to the
+// three sides of the triangle is attained at two different points.
+func tri2Tie(p [3]model2d.Coord, q model2d.Coord) bool {
+	type cand struct {
+		d    *big.Rat
+		x, y *big.Rat
+	}
+	var cs []cand
+	sub := func(a, b *big.Rat) *big.Rat { return new(big.Rat).Sub(a, b) }
+	mul := func(a, b *big.Rat) *big.Rat { return new(big.Rat).Mul(a, b) }
+	add := func(a, b *big.Rat) *big.Rat { return new(big.Rat).Add(a, b) }
+	for k := 0; k < 3; k++ {
+		a, b := p[k], p[(k+1)%3]
+		ax, ay, bx, by, qx, qy := ratOf(a.X), ratOf(a.Y), ratOf(b.X), ratOf(b.Y), ratOf(q.X), ratOf(q.Y)
+		vx, vy := sub(bx, ax), sub(by, ay)
+		dot := new(big.Rat).Quo(add(mul(vx, sub(qx, ax)), mul(vy, sub(qy, ay))), add(mul(vx, vx), mul(vy, vy)))
+		fx, fy := ax, ay
+		if dot.Sign() <= 0 {
+		} else if dot.Cmp(big.NewRat(1, 1)) >= 0 {
+			fx, fy = bx, by
+		} else {
+			fx, fy = add(ax, mul(vx, dot)), add(ay, mul(vy, dot))
+		}
+		d := add(mul(sub(fx, qx), sub(fx, qx)), mul(sub(fy, qy), sub(fy, qy)))
+		cs = append(cs, cand{d, fx, fy})
+	}
+	m := cs[0].d
+	for _, x := range cs {
+		if x.d.Cmp(m) < 0 {
+			m = x.d
+		}
+	}
+	for i := range cs {
+		for j := range cs {
+			if cs[i].d.Cmp(m) == 0 && cs[j].d.Cmp(m) == 0 && (cs[i].x.Cmp(cs[j].x) != 0 || cs[i].y.Cmp(cs[j].y) != 0) {
+				return true
+			}
+		}
+	}
+	return false
 }
 
 func (g gen) dyTri() [3]model3d.Coord3D {
